@@ -1,0 +1,14 @@
+//go:build verif
+
+// Contracts for package json (csvq's JSON table conversion), checked by /verif (csvqvc). Comment-only.
+package json
+
+// C19 / C02: building one JSON object per row from the column names read as paths: two columns may name the same place in
+// conflicting ways (columns "a" and "a.b": a plain value where an object is needed). That is a cell the format cannot
+// spell: it is refused with an error. (The place was taken apart with an unchecked type assertion: Fatal Error on
+// csvq -f json "SELECT 1 AS a, 2 AS `a.b`".)
+//@ func addPathValueToRowStructure
+//@   property C19 C02
+//@   safety
+//@   abstract *
+//@   modifies *
